@@ -1,13 +1,21 @@
 """python -m vmon.replay <ID> <witness.json> [--prefix]: re-execute a recorded case on the current tree.
 Default: exactly the one case.  --prefix (or "replay_mode": "shard-prefix" in the witness): re-execute, in one
-process, every case that the original shard ran up to and including the failing one -- needed when the
-failure depends on state left behind by earlier cases (a cross-case history).
-exit 1 + VIOLATION line if a monitor fails again on the recorded case, exit 0 otherwise."""
-import importlib, json, sys
+process, every case that the original shard ran up to and including the failing one (and up to the point where
+a shared-state change was noticed) -- needed when the failure depends on state left behind by earlier cases.
+exit 1 + VIOLATION line if a monitor fails again, exit 0 otherwise."""
+import importlib, json, os, sys
+
+def open_keys(pid):
+    here = os.path.dirname(os.path.dirname(os.path.abspath(__file__)))
+    try:
+        return {f['key'] for f in json.load(open(os.path.join(here, 'known_findings.json')))['findings'] if f['property'] == pid and f['status'] == 'open'}
+    except Exception:
+        return set()
 
 def main(argv):
     pid, path = argv[0], argv[1]
     from vmon import core, sanitize
+    from vmon.runner import Runner
     w = json.load(open(path))
     prefix = '--prefix' in argv or w.get('replay_mode') == 'shard-prefix'
     mod = importlib.import_module('vmon.props.' + pid.lower())
@@ -16,15 +24,18 @@ def main(argv):
     case = w['case']
     sanitize.import_all()
     sh = w.get('shard') or {}
-    if prefix and sh and sh.get('san'):
+    san = bool(prefix and sh and sh.get('san'))
+    if san:
         sanitize.install_invariants()
-    base = sanitize.global_state()
+    ctx.shardinfo = sh or None
+    R = Runner(mod, ctx, pid, w.get('seed', 0), san=san, cpu_budget=getattr(mod, 'CASE_CPU_S', 120.0) * 5)
     todo = [case]
     if prefix and sh and '_i' in case:
         todo = []
+        upto = max(case['_i'], case.get('_upto', 0))
         rng = core.rng_for(sh['seed'], pid, 'gen')
         for i, c in enumerate(mod.cases(sh['tier'], rng)):
-            if i > case['_i']:
+            if i > upto:
                 break
             if sh['san']:
                 if (i % sh['stride']) != 0 or ((i // sh['stride']) % sh['nshards']) != sh['shard']:
@@ -32,34 +43,19 @@ def main(argv):
             elif i % sh['nshards'] != sh['shard']:
                 continue
             todo.append(dict(c, _i=i))
-    nbefore = 0
     for c in todo:
-        last = c is todo[-1]
-        if last:
-            nbefore = ctx.nfails
-        ctx.case = c
-        core.arm(getattr(mod, 'CASE_CPU_S', 120.0) * 5)
-        try:
-            mod.run(c, ctx, core.rng_for(w.get('seed', 0), pid, 'case', c.get('_i', 0)))
-        except core.CaseTimeout:
-            ctx.check('no-result', False, got='CPU budget exhausted')
-        except Exception as e:
-            ctx.check('monitor-crashed', False, got='%s: %s' % (type(e).__name__, e))
-        finally:
-            core.disarm()
-        if sh.get('san'):
-            for kind, what in sanitize.drain_s1():
-                ctx.check('S1-payload-invariant', False, got=what, kind=kind)
-    ch = sanitize.diff_state(base, sanitize.global_state())
-    ctx.check('S3-global-state', not ch, got=ch)
-    print('replayed %d case(s)%s, last: %s' % (len(todo), ' (shard prefix)' if prefix else '', json.dumps(case)[:300]))
+        R.step(c)
+    R.finish()
+    known = open_keys(pid)
+    bad = [f for f in ctx.fails if f['fail'].get('key') not in known]
+    print('replayed %d case(s)%s, recorded case: %s' % (len(todo), ' (shard prefix)' if prefix else '', json.dumps(case)[:300]))
     print('monitor evaluations: %s' % dict(ctx.mon))
-    if ctx.nfails > nbefore or (prefix and ctx.nfails):
-        for f in ctx.fails[-5:]:
-            print('  FAIL %s' % json.dumps(f['fail'])[:600])
+    if bad:
+        for f in bad[:5]:
+            print('  FAIL %s' % json.dumps(f['fail'])[:700])
         print('VIOLATION property=%s replay=%s' % (pid, path))
         return 1
-    print('no monitor failed on this case')
+    print('no monitor failed')
     return 0
 
 if __name__ == '__main__':
